@@ -209,6 +209,29 @@ def cover(e):
 FAM_KEEP = {"int": 1, "bin": 5, "hex": 8, "dec": 7, "rat": 3}
 
 
+def _t(k, s):
+    return {"k": k, "s": list(s.encode())}
+
+
+# hand-written literals outside the grammar, one or two per macro family: part of every run (the spec still decides that
+# they are invalid; a case LiteralDef does not classify as invalid is reported as malformed)
+FIXED_INVALID = [
+    {"kind": "invalid", "macro": "ubig", "fam": "int", "par": [], "toks": [_t("sign", "-"), _t("digits", "5")]},
+    {"kind": "invalid", "macro": "ibig", "fam": "int", "par": [], "toks": [_t("digits", "12z")]},
+    {"kind": "invalid", "macro": "static_ubig", "fam": "int", "par": [], "toks": [_t("digits", "5"), _t("base", "base"), _t("radix", "37")]},
+    {"kind": "invalid", "macro": "static_ibig", "fam": "int", "par": [], "toks": [_t("prefix", "0x"), _t("digits", "fg")]},
+    {"kind": "invalid", "macro": "fbig", "fam": "bin", "par": [], "toks": [_t("digits", "12"), _t("point", "."), _t("digits", "3")]},
+    {"kind": "invalid", "macro": "static_fbig", "fam": "bin", "par": [], "toks": [_t("digits", "1"), _t("point", "."), _t("digits", "01"), _t("expmark", "p"), _t("digits", "3")]},
+    {"kind": "invalid", "macro": "dbig", "fam": "dec", "par": [], "toks": [_t("prefix", "0x"), _t("digits", "12")]},
+    {"kind": "invalid", "macro": "static_dbig", "fam": "dec", "par": [], "toks": [_t("digits", "1"), _t("point", "."), _t("digits", "2"), _t("point", "."), _t("digits", "3")]},
+    {"kind": "invalid", "macro": "rbig", "fam": "rat", "par": [], "toks": [_t("digits", "1"), _t("slash", "/"), _t("digits", "0")]},
+    {"kind": "invalid", "macro": "static_rbig", "fam": "rat", "par": [], "toks": [_t("prefix", "0x"), _t("digits", "1"), _t("slash", "/"), _t("prefix", "0b"), _t("digits", "1")]},
+    {"kind": "invalid", "macro": "rbig", "fam": "rat", "par": [], "toks": [_t("digits", "1"), _t("slash", "/"), _t("slash", "/"), _t("digits", "2")]},
+    {"kind": "invalid", "macro": "ibig", "fam": "int", "par": [], "toks": [_t("sign", "-"), _t("sign", "-"), _t("digits", "5")]},
+    {"kind": "invalid", "macro": "static_rbig", "fam": "rat", "par": [], "toks": [_t("tilde", "~"), _t("tilde", "~"), _t("digits", "1"), _t("slash", "/"), _t("digits", "2")]},
+]
+
+
 def gen_cases(ctx, keep, keepbad, name="gen"):
     cfg = fw.write_cfg(ctx.path("Gen_C20-%s.cfg" % name), invariants=["EmitValid", "EmitBad"],
                        constants={"Seed": ctx.seed % 100000, "Keep": keep, "KeepBad": keepbad})
@@ -255,8 +278,10 @@ def key(e):
 
 
 def _witnesses(ctx):
+    p = os.path.join(fw.ROOT, "findings", "C20.json")
+    own = {e["id"] for e in json.load(open(p))} if os.path.exists(p) else set()
     return [(k["id"], dict(k["witness"])) for k in ctx.known
-            if k.get("status") == "open" and "C20" in k.get("properties", []) and k.get("witness")]
+            if k["id"] in own and k.get("status") == "open" and "C20" in k.get("properties", []) and k.get("witness")]
 
 
 def run(ctx):
@@ -273,7 +298,7 @@ def run(ctx):
     cases = gen_cases(ctx, keep, keepbad)
     wit = _witnesses(ctx)
     nid = max(c["id"] for c in cases)
-    for _, w in wit:
+    for w in [dict(c) for c in FIXED_INVALID] + [w for _, w in wit]:
         nid += 1
         w["id"] = nid
         cases.append(w)
@@ -312,7 +337,12 @@ def selftest(ctx):
     """binding demonstration: one macro result altered, one run-time precision altered, one invalid literal reported
     as compiling - the monitor must flag exactly those events"""
     cases = gen_cases(ctx, 400, 200, name="selftest")
-    cases = [c for c in cases if c["kind"] == "valid"][:30] + [c for c in cases if c["kind"] == "invalid"][:4]
+    pick = []
+    for fam in ("int", "bin", "hex", "dec", "rat"):
+        pick += [c for c in cases if c["kind"] == "valid" and c["fam"] == fam][:6]
+    cases = pick + [c for c in cases if c["kind"] == "invalid"][:4] + [dict(c) for c in FIXED_INVALID[:3]]
+    for i, c in enumerate(cases):
+        c["id"] = i + 1
     tr, nv, ni = run_cases(ctx, cases)
     ev = [json.loads(l) for l in open(tr)]
     v0 = ctx.monitor("selftest-clean", SPECDIR, "Trace_C20.tla", "Trace_C20.cfg", tr)
